@@ -1,40 +1,55 @@
 /-
 C03 — A reforming calendar is Julian before the reformation, Gregorian from it on.
-(partial: the label theorem for arbitrary R is being built in Lemmas/Reform*.lean)
+
+`IsDateR R j y m d` (Spec/Basic.lean) *is* the property: day `j` carries its
+proleptic-Julian label when `j < R` and its proleptic-Gregorian label when `R ≤ j`.
+The theorems hold for every reformation day `Calendar::reforming` accepts and every
+integer day number.
 -/
-import JulianVerif.Lemmas.Proleptic
+import JulianVerif.Lemmas.AtJdn
 namespace JV.C03
 open JV Spec
 
-/-- a date of a reforming calendar is reported Old Style exactly below R, New Style from R -/
-theorem style_flags (r : Int) (g : ReformGap) (d : Date) (h : d.calendar = .reforming r g) :
-    (d.isJulian = true ↔ d.jdn < r) ∧ (d.isGregorian = true ↔ r ≤ d.jdn)
-    ∧ (d.isJulian = !d.isGregorian) := by
-  simp only [Date.isJulian, Date.isGregorian, h, decide_eq_true_eq]
-  refine ⟨trivial, trivial, ?_⟩
-  by_cases c : d.jdn < r
-  · have : ¬ r ≤ d.jdn := by omega
-    simp [c, this]
-  · have : r ≤ d.jdn := by omega
-    simp [c, this]
+/-- **every day below R carries exactly its proleptic-Julian year/month/day and every day
+from R on exactly its proleptic-Gregorian one**; the date is reported Old Style exactly
+below R and New Style from R on -/
+theorem reforming_atJdn (R : Int) (hR : InI32 R) (c : Calendar)
+    (hc : Calendar.mkReforming R = .ok c) (j : Int) :
+    ∃ d, c.atJdn? j = some d ∧ d.jdn = j ∧ IsDateR R j d.year d.month d.day
+      ∧ (d.isJulian = true ↔ j < R) ∧ (d.isGregorian = true ↔ R ≤ j) := by
+  obtain ⟨rf, rfl, rfl⟩ := mk_reform R hR c hc
+  obtain ⟨d, h, hcal, hj, hd⟩ := atJdn_total rf.cal (Or.inr (Or.inr ⟨rf.R, hR, hc⟩)) j
+  refine ⟨d, h, hj, ?_, ?_, ?_⟩
+  · simpa [IsDateR, Reform.cal, ruleAt] using hd
+  · simp [Date.isJulian, hcal, Reform.cal, hj]
+  · simp [Date.isGregorian, hcal, Reform.cal, hj]
 
-/-- conversion between calendars is `at_jdn` of the same day number in the target calendar -/
+/-- the calendar's advertised last Julian date and first Gregorian date are the dates of
+day R-1 and day R -/
+theorem boundary_dates (R : Int) (hR : InI32 R) (c : Calendar) (hc : Calendar.mkReforming R = .ok c) :
+    c.lastJulianDate = c.atJdn? (R - 1) ∧ c.firstGregorianDate = c.atJdn? R
+    ∧ c.lastJulianDate ≠ none ∧ c.firstGregorianDate ≠ none := by
+  obtain ⟨rf, rfl, rfl⟩ := mk_reform R hR c hc
+  refine ⟨rf.lastJulianDate_eq, rf.firstGregorianDate_eq, ?_, ?_⟩ <;>
+    simp [Reform.cal, Calendar.lastJulianDate, Calendar.firstGregorianDate]
+
+/-- **the calendar only ever skips forward**: the first Gregorian label is later than the
+last Julian label, with at least one label skipped between them -/
+theorem skips_forward (R : Int) (hR : InI32 R) (c : Calendar) (hc : Calendar.mkReforming R = .ok c) :
+    ∃ dJ dG, c.lastJulianDate = some dJ ∧ c.firstGregorianDate = some dG
+      ∧ (dJ.year < dG.year
+          ∨ (dJ.year = dG.year ∧ (dJ.month.number < dG.month.number
+              ∨ (dJ.month = dG.month ∧ dJ.day + 2 ≤ dG.day)))) := by
+  obtain ⟨rf, rfl, rfl⟩ := mk_reform R hR c hc
+  exact ⟨_, _, rfl, rfl, rf.label_order⟩
+
+/-- conversion between calendars is `at_jdn` of the same day number in the target -/
 theorem convertTo_eq (d : Date) (c : Calendar) : d.convertTo? c = c.atJdn? d.jdn := rfl
 
-/-- the branch `at_jdn` takes: Julian arithmetic below R, Gregorian from R on -/
-theorem side_partial (r : Int) (g : ReformGap) (j : Int) (hg : g.ordinalGap = 0) :
-    (Calendar.reforming r g).jdnYearOrdinal j = if j < r then jdn2julian j else jdn2gregorian j := by
-  simp only [Calendar.jdnYearOrdinal, Calendar.gap, hg]
-  by_cases c : j < r <;> simp [c]
-
-/-- the built-in 1582 calendar: the advertised last Julian and first Gregorian dates are the
-dates of day R-1 and day R, and the calendar skips forward (Oct 4 → Oct 15) -/
+/-- the built-in 1582 calendar skips from October 4 (O.S.) to October 15 (N.S.) -/
 theorem reform1582_boundary :
-    Calendar.reform1582.lastJulianDate = Calendar.reform1582.atJdn? 2299160
-    ∧ Calendar.reform1582.firstGregorianDate = Calendar.reform1582.atJdn? 2299161
-    ∧ Calendar.reform1582.atJdn? 2299160 = some ⟨Calendar.reform1582, 1582, 277, .october, 4, 4, 2299160⟩
-    ∧ Calendar.reform1582.atJdn? 2299161 = some ⟨Calendar.reform1582, 1582, 278, .october, 15, 5, 2299161⟩
-    ∧ IsDateR 2299161 2299160 1582 .october 4 ∧ IsDateR 2299161 2299161 1582 .october 15 := by
-  refine ⟨rfl, rfl, rfl, rfl, ?_, ?_⟩ <;> (unfold IsDateR IsDate ValidYMD; decide)
+    Calendar.reform1582.atJdn? 2299160 = some ⟨Calendar.reform1582, 1582, 277, .october, 4, 4, 2299160⟩
+    ∧ Calendar.reform1582.atJdn? 2299161 = some ⟨Calendar.reform1582, 1582, 278, .october, 15, 5, 2299161⟩ :=
+  ⟨rfl, rfl⟩
 
 end JV.C03
